@@ -107,7 +107,12 @@ SITE_CHECKS = [
     {'file': P, 'pattern': r'state_stack_\.emplace_back\(parse_mode::(array|map_key)', 'count': 2, 'props': ['C10'], 'what': 'containers are pushed only in the two guarded functions'},
 ]
 HARNESSES = [
-    Harness('read_item', 'h_read_item', enforce='read_item', method='LF', unwind=14, props=['C07', 'C06', 'C03'], timeout=1800),
+] + [Harness('read_item_%02x_%02x' % (lo, hi), 'h_read_item', enforce='read_item', method='LF', unwind=14, props=['C07', 'C06', 'C03'], timeout=1800,
+             defines=['VX_T_LO=%d' % lo, 'VX_T_HI=%d' % hi],
+             note='case split on the type byte: 0x%02x..0x%02x (the harnesses together cover every first byte, the empty input and a source error)' % (lo, hi))
+     for lo, hi in ((0x00, 0x7f), (0x80, 0x9f), (0xa0, 0xbf), (0xc0, 0xc9), (0xca, 0xcb), (0xcc, 0xcf), (0xd0, 0xd3), (0xd4, 0xd8), (0xd9, 0xdb), (0xdc, 0xdf), (0xe0, 0xff))] + [
+    Harness('read_item_empty', 'h_read_item', enforce='read_item', method='LF', unwind=14, props=['C07', 'C05'], timeout=900, defines=['VX_T_EMPTY=1'],
+            note='empty input or source error'),
     Harness('begin_array', 'h_begin_array', enforce='begin_array', method='LF', unwind=14, props=['C10', 'C07']),
     Harness('begin_object', 'h_begin_object', enforce='begin_object', method='LF', unwind=14, props=['C10', 'C07']),
 ]
